@@ -1,6 +1,7 @@
 package h
 
 import (
+	"runtime"
 	"bufio"
 	"encoding/json"
 	"os"
@@ -49,10 +50,22 @@ func TestWorker(t *testing.T) {
 	if stride <= 0 {
 		stride = 1
 	}
+	done := 0
 	for idx := spec.Lo; idx < spec.Hi; idx += stride {
 		if spec.BudgetS > 0 && time.Since(start).Seconds() > spec.BudgetS {
 			break
 		}
+		if spec.MaxRuns > 0 && done >= spec.MaxRuns {
+			break // bounded process lifetime: the testing package keeps per-bubble records alive
+		}
+		if done%64 == 63 {
+			var ms runtime.MemStats
+			runtime.ReadMemStats(&ms)
+			if ms.HeapInuse > 3<<30 {
+				break
+			}
+		}
+		done++
 		tape := NewTape(MixSeed(spec.Seed, HashString(spec.Property), uint64(idx)))
 		tape.Idx = idx
 		res := runOne(&spec, idx, tape)
